@@ -934,6 +934,7 @@ func (sc *RevScenario) setup(obs *RevObs, altSeed uint32, nt *Net, ka *keyAlloca
 				obs.HarnessErr = err.Error()
 				return nil
 			}
+			cache.Latency = sc.CacheLatency
 			hf.Cache = cache
 			hf.DiscardCacheError = sc.Discard
 			obs.Cache = cache
@@ -963,7 +964,7 @@ func (sc *RevScenario) setup(obs *RevObs, altSeed uint32, nt *Net, ka *keyAlloca
 		cp := w.Certs[sc.PanicCert]
 		if len(cp.CRL) > 0 {
 			if sc.PanicAt == "cache" && cache != nil {
-				cache.PanicOn, cache.PanicV = cp.CRL[0].URL, pv
+				cache.PanicOn, cache.PanicV, cache.PanicSet = cp.CRL[0].URL, pv, sc.PanicInSet
 			} else {
 				rf.panicOn, rf.panicCaller = cp.CRL[0].URL, w.callerKeyOf(sc.PanicRep)
 			}
@@ -1142,6 +1143,11 @@ func (sc *RevScenario) execInBubble(obs *RevObs, altSeed uint32, onlyWorld int, 
 				co.Results, co.Err = coreocsp.CheckStatus(coreocsp.Options{CertChain: chain, CertChainPurpose: w.purposeForCall(), SigningTime: w.stArg(), HTTPClient: ocspClient})
 			}
 			co.TReturn, co.Returned = time.Now(), true
+			// the results as they are at the return instant: a goroutine the
+			// call left behind must not be able to complete them afterwards
+			if co.Results != nil {
+				co.Results = append([]*result.CertRevocationResult(nil), co.Results...)
+			}
 		}
 		switch {
 		case sc.Sequential:
@@ -1187,6 +1193,13 @@ func (sc *RevScenario) execInBubble(obs *RevObs, altSeed uint32, onlyWorld int, 
 			obs.InFlight = append(obs.InFlight, x.Key)
 		}
 	}
+	if inf.cache != nil {
+		for _, op := range inf.cache.AllOps() {
+			if !op.Done {
+				obs.InFlight = append(obs.InFlight, "cache."+op.Op)
+			}
+		}
+	}
 	// let any leaked goroutine make progress: if something completes after the
 	// return instant it is a late event
 	synctest.Wait()
@@ -1198,6 +1211,13 @@ func (sc *RevScenario) execInBubble(obs *RevObs, altSeed uint32, onlyWorld int, 
 		}
 		if x.Rec.Begun && x.Rec.TBegin.After(tret) {
 			obs.LateEvents = append(obs.LateEvents, "begin:"+x.Key)
+		}
+	}
+	if inf.cache != nil {
+		for _, op := range inf.cache.AllOps() {
+			if op.T.After(tret) || (op.Done && op.TEnd.After(tret)) {
+				obs.LateEvents = append(obs.LateEvents, "cache."+op.Op)
+			}
 		}
 	}
 	obs.Fetches = rf.all()
